@@ -407,7 +407,7 @@ def run_shard(ctx, spec):
                 attach.call(a.wma_world_best, gs, e2, year=y)
                 for age in ages_for(first, last, ctx.tier):
                     attach.call(a.wma_age_factor, gs, age, e2, year=y)
-                    if gs in ('m', 'f') and age == int(age * 2) / 2 and int(age * 2) % 7 == 0:
+                    if gs in ('m', 'f') and (age != int(age) or int(age) % 10 == 0):
                         # an age is a number: a Decimal or a Fraction from a date subtraction is as good as a float
                         for alt in (decimal.Decimal(str(age)), fractions.Fraction(age)):
                             attach.call(a.wma_age_factor, gs, alt, e2, year=y)
